@@ -116,6 +116,33 @@ def u_twins(ctx, kind, form="ct2x2x2"):
     ctx.check("first-table-again", Eq(va2, va))
 
 
+def u_repeat(ctx, kind, form="ct2x2x2"):
+    """ONE table evaluated at two different query points, one after the other (and the first one again): every lookup returns the value
+    for ITS OWN query point.  A lookup memo keyed too coarsely (rounded / truncated / partial key) hands the second query the first
+    one's value; a single evaluation per object can never see that."""
+    P = params(ctx, kind, "X", form, only=())
+    tbl = P[TABLE_KEY[kind]]
+    for row in tbl.z:
+        for e in row:
+            ctx.assume(And(Gt(e, 0.0), Le(e, 1.0)) if kind == "Converter" else Ge(e, 0.0))
+    ctx.assume(spec.valid(kind, P))
+    comp = construct(kind, "X", P)
+    pts = []
+    for n in (1, 2):
+        x, y = ctx.real("x%d" % n), ctx.real("y%d" % n)
+        ctx.assume(x >= 0)
+        ctx.assume(y >= 0)
+        pts.append((x, y))
+    vals = [comp._ipr._interp(x, y) for x, y in pts + pts[:1]]
+    ctx.cover("evaluated")
+    if any(_is_nan(v) for v in vals):
+        ctx.fail("never-NaN", info={"branch": "repeat"})
+        return
+    ctx.check("first-query-own-value", Eq(vals[0], tbl.value(*pts[0])))
+    ctx.check("second-query-own-value", Eq(vals[1], tbl.value(*pts[1])))
+    ctx.check("first-query-again", Eq(vals[2], tbl.value(*pts[0])))
+
+
 def u_flat(ctx, kind, form):
     """A table whose entries all equal c behaves as the constant c in every law of that kind."""
     c = ctx.real("c")
@@ -257,6 +284,8 @@ def instances(tier):
             out.append(Instance("C10", "c10:u_flat", dict(kind=kind, form=form), cover=["evaluated"], weight=5))
     for kind in ("PSwitch", "Converter"):
         out.append(Instance("C10", "c10:u_twins", dict(kind=kind), cover=["evaluated"], weight=10))
+        for form in ("t1x2", "ct2x2x2"):
+            out.append(Instance("C10", "c10:u_repeat", dict(kind=kind, form=form), name="c10:u_repeat/%s/%s" % (kind, form), cover=["evaluated"], weight=10))
     # "the sign of the lookup arguments is ignored": every law of every kind with a table, for vi of either sign
     for kind in kinds:
         if kind == "PMux":
@@ -264,4 +293,8 @@ def instances(tier):
         for form in ("t1x2", "ct2x2x2"):
             out.append(Instance("C10", "c01:u_law", dict(kind=kind, form=form, phase="none", off="absent"), cover=["iin-evaluated"],
                                 weight=5 if "t2" in form else 1))
+    # ... and the mux: its table is looked up at the voltage of the SELECTED input (first input live / dead)
+    for form in ("t1x2", "ct2x2x2", "opaque"):
+        for offs in ("00", "10"):
+            out.append(Instance("C10", "c01:u_mux", dict(k=2, form=form, phase="none", rs_list=True, offs=offs), weight=5))
     return out, META
